@@ -104,11 +104,17 @@ def _opens(node):
     for n in ast.walk(node):
         if isinstance(n, ast.Call) and _dotted(n.func) == "open" and n.args:
             mode = "r"
-            if len(n.args) >= 2 and isinstance(n.args[1], ast.Constant):
-                mode = str(n.args[1].value)
+            mexpr = n.args[1] if len(n.args) >= 2 else None
             for kw in n.keywords:
-                if kw.arg == "mode" and isinstance(kw.value, ast.Constant):
-                    mode = str(kw.value.value)
+                if kw.arg == "mode":
+                    mexpr = kw.value
+            if isinstance(mexpr, ast.Constant):
+                mode = str(mexpr.value)
+            elif mexpr is not None:
+                # a computed mode ('a' if i else 'w', a variable, ...): every string constant in the expression is a possible mode; an
+                # expression without constants may be anything.  'a' wins (the file may be appended to), then 'w'.
+                consts = [str(c.value) for c in ast.walk(mexpr) if isinstance(c, ast.Constant) and isinstance(c.value, str)]
+                mode = "a?" if (not consts or any("a" in c for c in consts)) else ("w" if all("w" in c for c in consts) else "a?")
             yield n, mode
 
 
